@@ -322,10 +322,15 @@ class Enc:
         self.binop = T["info"][d]["binop"]
         self.atoms = {}
 
-    def atom_id(self, text):
-        m = re.fullmatch(r"[a-z](\d+)", text)
+    def atom_id(self, text, string=False):
+        """x<n> -> n; string 's<n>' -> n; string 'x<n>' -> 100000+n (PrinterCore.str_payload)."""
+        m = re.fullmatch(r"([a-z])(\d+)", text)
+        if m and m.group(1) == "x":
+            return int(m.group(2)) + (100000 if string else 0)
+        if m and m.group(1) == "s":
+            return int(m.group(2))
         if m:
-            return int(m.group(1)) + (100 if text[0] != "x" else 0) + (1000 if text[0] == "s" else 0)
+            return int(m.group(2)) + 100
         return self.atoms.setdefault(text, 5000 + len(self.atoms))
 
     def tok(self, t):
@@ -333,7 +338,7 @@ class Enc:
         if k == "atom":
             return "TAtom false %d" % self.atom_id(t[1])
         if k == "str":
-            return "TAtom true %d" % self.atom_id(t[1])
+            return "TAtom true %d" % self.atom_id(t[1], True)
         if k == "type":
             return "TType %d" % TYPES[t[1]]
         if k == "kw":
@@ -398,7 +403,7 @@ class Enc:
             t = self.eat(k)
             if t[1] != n["v"]:
                 raise ValueError("atom text")
-            return "(EAtom %s %d)" % (B(k == "str"), self.atom_id(n["v"]))
+            return "(EAtom %s %d)" % (B(k == "str"), self.atom_id(n["v"], k == "str"))
         if k == "nested":
             self.eat("p", "LParen"); e = self.conv(n["e"]); self.eat("p", "RParen")
             return "(ENested %s)" % e
@@ -481,7 +486,7 @@ class Enc:
                 if t[0] not in ("atom", "str") or t[1] != n["esc"]:
                     raise ValueError("escape")
                 self.pos += 1
-                esc = "(Some (%s, %d))" % (B(t[0] == "str"), self.atom_id(t[1]))
+                esc = "(Some (%s, %d))" % (B(t[0] == "str"), self.atom_id(t[1], t[0] == "str"))
             ck = {"Like": "LLike", "ILike": "LILike", "SimilarTo": "LSimilar", "RLike": "LRLike", "Regexp": "LRegexp"}[kd]
             return "(ELike %s %s %s %s %s %s)" % (ck, B(n["neg"]), B(n["any"]), e, pat, esc)
         if k == "between":
